@@ -85,8 +85,9 @@ def jobs(tier, seed):
 XPTS = [0.5, -0.75, 1.25, 2.0, -1.5, 0.25]
 
 
-def _gen(nd):
-    return nd.MinStepGenerator(base_step=0.25, step_ratio=2.0, num_steps=3, step_nom=1.0)
+def _gen(nd, order=2):
+    # ratio 2 for the second-order jobs, ratio 3 for the higher orders (a ratio the library does not use as a default anywhere)
+    return nd.MinStepGenerator(base_step=0.25, step_ratio=2.0 if order <= 2 else 3.0, num_steps=3, step_nom=1.0)
 
 
 def make_map(kind, n, m, k):
@@ -175,7 +176,7 @@ def run_job(job, kind, method, order, n, m, k, drive, xshape=None, vshape=None):
     if drive == 'e2e':
         def harness():
             with tr.traced(), sn.abstract_division(products=True), cm.quiet():
-                return cls(f, step=_gen(nd), method=method, order=order)(x)
+                return cls(f, step=_gen(nd, order), method=method, order=order)(x)
         ex = sn.Explorer(harness, assumptions=box, max_paths=64, timeout_ms=20000)
         paths = list(ex.paths())
         job.absorb_explorer(ex)
@@ -198,7 +199,7 @@ def run_job(job, kind, method, order, n, m, k, drive, xshape=None, vshape=None):
             # Gradient equals the single Jacobian row
             def harness_j():
                 with tr.traced(), sn.abstract_division(products=True), cm.quiet():
-                    return nd.Jacobian(f, step=_gen(nd), method=method, order=order)(np.ravel(x))
+                    return nd.Jacobian(f, step=_gen(nd, order), method=method, order=order)(np.ravel(x))
             pj = [q for q in sn.Explorer(harness_j, assumptions=box, max_paths=64).paths() if q.exc is None]
             if pj:
                 Jr = np.asarray(pj[0].result)
@@ -340,6 +341,7 @@ def replay(cex):
         except Exception as e:  # noqa
             return True, 'raises %s' % type(e).__name__
         return True, 'mismatched sizes accepted'
+    stepkw = dict(step=_gen(nd, order)) if cfg.get('drive') == 'e2e' else {}
     for trial in range(4):
         if kind == 'vec':
             A, b = rng.uniform(-1, 1, size=(m, n)), rng.uniform(-1, 1, size=m)
@@ -362,9 +364,9 @@ def replay(cex):
                     got = core.directionaldiff(f, x, vec, method=method)
                     want = c @ (vec.ravel() / np.sqrt(np.sum(vec.ravel() ** 2)))
                 elif kind == 'grad':
-                    got = nd.Gradient(f, method=method, order=order)(x)
+                    got = nd.Gradient(f, method=method, order=order, **stepkw)(x)
                 else:
-                    got = nd.Jacobian(f, method=method, order=order)(x)
+                    got = nd.Jacobian(f, method=method, order=order, **stepkw)(x)
         except Exception as e:  # noqa
             return True, '%s(method=%s, order=%d) on an affine map R^%d->R^%s raises %s: %s' % (
                 'Gradient' if kind == 'grad' else ('directionaldiff' if kind == 'dirdiff' else 'Jacobian'), method, order, n,
